@@ -1,24 +1,120 @@
 (* Property C30 — "The inter-thread queue never loses, duplicates or reorders".
    Only theorem statements: each is closed by [exact] of a lemma proved in C30/MpmcProofs.v
-   (C30/TraceProofs.v for the consequences on traces) and followed by Print Assumptions.
+   (invariant of the interleaving model) / C30/TraceProofs.v (what acceptance by the monitor
+   means for a trace) and followed by Print Assumptions.
 
    [run mask sched s] executes the interleaving model of uMPMC_Ptr_Queue (C30/Mpmc.v): one list
-   element of [sched] = one shared-memory action of that thread.  Threads, programs and the
-   schedule are arbitrary; the queue has 2^k slots (what init() computes for any request). *)
-From Coq Require Import Arith List Bool.
-From F8 Require Import C30.Mpmc C30.Spec_C30 C30.MpmcProofs.
+   element of [sched] = one shared-memory action (atomic read / set / CAS / slot-buffer push or
+   pop) of that thread.  Number of threads, their programs [progs] (thread t runs [nth t progs []])
+   and the schedule are arbitrary and unbounded; the queue has 2^k slots, k >= 1 — what init()
+   computes for any request (norm_nq).  The trace [snd (run ..)] lists, per action, the value
+   read/written and the events  EWinP t j v (thread t reserved push ticket j for payload v),
+   EDoneP t j v (that push returned), EWinC t j (pop ticket j reserved), EDoneC t j d (that pop
+   returned d), EEmptyC t j (a pop returned false having looked at ticket j).
+   Modelled, not proved: sequentially consistent interleaving, atomic primitives, the per-slot
+   uSWSR_Ptr_Buffer as a FIFO list, no wrap of unsigned long. *)
+From Coq Require Import Arith List Bool Permutation.
+From F8 Require Import C30.Mpmc C30.Spec_C30 C30.TraceProofs C30.MpmcProofs.
 Import ListNotations.
 
-(* For every size 2^k >= 2, all programs and every schedule — of any length, over any number of
-   threads — the property monitor c30_ok accepts the complete trace. *)
+(* For every size, all programs and every schedule the property monitor c30_ok accepts the
+   complete trace (the monitor is the oracle that is also applied to the real code's traces). *)
 Theorem c30_all_schedules : forall k progs sched, 1 <= k ->
   c30_ok progs (snd (run (Nat.ones k) sched (init progs))) = true.
 Proof. exact c30_all_schedules_lemma. Qed.
 Print Assumptions c30_all_schedules.
 
-(* The executable experiment compared with the real code (any requested size; schedule, then the
+(* The executable experiment that is compared with the real code (any requested size; schedule,
    round-robin drain, then the draining thread) is an instance. *)
 Theorem c30_exec : forall nq progs sched fuel,
   c30_ok (all_progs progs) (exec nq progs sched fuel) = true.
 Proof. exact c30_exec_lemma. Qed.
 Print Assumptions c30_exec.
+
+(* init() always ends up with a power of two >= 2, so the theorems cover every request. *)
+Theorem c30_size_is_power_of_two : forall nq, exists k, 1 <= k /\ norm_nq nq - 1 = Nat.ones k.
+Proof. exact norm_nq_pow2. Qed.
+Print Assumptions c30_size_is_power_of_two.
+
+(* Tickets: on both sides the reservations are numbered 0,1,2,... in trace order (each ticket is
+   handed out exactly once, in the order the CASes succeed). *)
+Theorem c30_tickets_consecutive : forall k progs sched, 1 <= k ->
+  let tr := snd (run (Nat.ones k) sched (init progs)) in
+  ticketsP tr = seq 0 (length (ticketsP tr)) /\ ticketsC tr = seq 0 (length (ticketsC tr)).
+Proof. exact c30_tickets_consecutive_lemma. Qed.
+Print Assumptions c30_tickets_consecutive.
+
+(* Order: the pop that holds ticket j returns exactly the payload that was reserved under push
+   ticket j, and only after that push had returned.  With c30_tickets_consecutive: elements leave
+   in the order their pushes reserved their slot. *)
+Theorem c30_ticket_order : forall k progs sched, 1 <= k ->
+  forall tr1 t j d tr2, snd (run (Nat.ones k) sched (init progs)) = tr1 ++ EDoneC t j d :: tr2 ->
+  exists tp, In (EWinP tp j d) tr1 /\ In (EDoneP tp j d) tr1 /\ In (EWinC t j) tr1.
+Proof. exact c30_ticket_order_lemma. Qed.
+Print Assumptions c30_ticket_order.
+
+(* Later reservation = larger ticket; in particular the elements of one producer (whose pushes
+   follow each other, c30_program_order) carry increasing tickets: per-producer order is kept. *)
+Theorem c30_reservation_order : forall k progs sched, 1 <= k ->
+  forall a t1 k1 v1 b t2 k2 v2 c,
+  snd (run (Nat.ones k) sched (init progs)) = a ++ EWinP t1 k1 v1 :: b ++ EWinP t2 k2 v2 :: c -> k1 < k2.
+Proof. exact c30_reservation_order_lemma. Qed.
+Print Assumptions c30_reservation_order.
+
+(* What a thread has completed is a prefix of its program, in program order. *)
+Theorem c30_program_order : forall k progs sched, 1 <= k -> forall t,
+  exists rest, nth t progs [] = ops_of t (snd (run (Nat.ones k) sched (init progs))) ++ rest.
+Proof. exact c30_program_order_lemma. Qed.
+Print Assumptions c30_program_order.
+
+(* At most once: no pop ticket (hence, by c30_ticket_order, no push ticket's element) is returned
+   twice, and no push returns twice. *)
+Theorem c30_at_most_once : forall k progs sched, 1 <= k ->
+  let tr := snd (run (Nat.ones k) sched (init progs)) in NoDup (donesC tr) /\ NoDup (donesP tr).
+Proof. exact c30_at_most_once_lemma. Qed.
+Print Assumptions c30_at_most_once.
+
+(* Exactly once, on complete traces — of the model or of the real code: if the monitor accepts
+   the trace, every operation has returned and as many pop as push tickets were handed out
+   (c30_final_ok, evaluated on every compared trace), then the pops that returned are exactly the
+   push reservations. *)
+Theorem c30_exactly_once : forall progs tr,
+  c30_final_ok progs tr = true -> Permutation (donesC tr) (ticketsP tr).
+Proof. exact final_exactly_once_lemma. Qed.
+Print Assumptions c30_exactly_once.
+
+(* Nothing is lost: whenever no thread is between its winning CAS and its final store, every
+   reserved push has returned, and if pushes are ahead of pops (preadC < preadP) then a pop
+   started now and run alone (its six shared actions) returns the payload reserved under ticket
+   preadC — it cannot report empty and it cannot skip an element. *)
+Theorem c30_no_loss : forall k progs sched, 1 <= k ->
+  let s := fst (run (Nat.ones k) sched (init progs)) in
+  let tr := snd (run (Nat.ones k) sched (init progs)) in
+  (forall u, holds_ticket (tpc (th s u)) = false) ->
+  (forall j, j < pP s -> In j (donesP tr)) /\
+  (forall t, pC s < pP s -> tpc (th s t) = C1 ->
+     exists d tp evs, snd (run (Nat.ones k) [t; t; t; t; t; t] s) = evs ++ [EDoneC t (pC s) d] /\
+                      In (EWinP tp (pC s) d) tr).
+Proof. exact c30_no_loss_lemma. Qed.
+Print Assumptions c30_no_loss.
+
+(* Empty: a pop reports empty at ticket j only if j is the next pop ticket (all earlier ones have
+   been reserved, j has not) and the push holding ticket j has not returned. *)
+Theorem c30_empty_only_if : forall k progs sched, 1 <= k ->
+  forall tr1 t j tr2, snd (run (Nat.ones k) sched (init progs)) = tr1 ++ EEmptyC t j :: tr2 ->
+  j = length (ticketsC tr1) /\ forall tp v, ~ In (EDoneP tp j v) tr1.
+Proof. exact c30_empty_only_if_lemma. Qed.
+Print Assumptions c30_empty_only_if.
+
+(* Non-vacuity: an experiment on a 2-slot queue in which six elements go round (tickets wrap
+   twice), with a failed CAS, an empty pop and a producer stalled after its CAS; the monitor
+   accepts it, every operation returns and all six elements are returned. *)
+Theorem c30_nonvacuous :
+  let tr := exec 2 nv_progs nv_sched 50 in
+  c30_ok (all_progs nv_progs) tr = true /\ c30_final_ok (all_progs nv_progs) tr = true /\
+  length (donesC tr) = 6 /\
+  existsb (fun e => match e with EEmptyC _ _ => true | _ => false end) tr = true /\
+  existsb (fun e => match e with ECas _ _ false => true | _ => false end) tr = true /\
+  existsb (fun e => match e with EWinP _ 5 _ => true | _ => false end) tr = true.
+Proof. exact c30_nonvacuous_lemma. Qed.
+Print Assumptions c30_nonvacuous.
